@@ -203,7 +203,13 @@ def spec_C17(lines, ghost=None):
         t = tok(l)
         if t[0] != "sc": continue
         if t[1] == "call": calls.append([t[2], False]); continue
-        if t[1] == "enter" and calls and calls[-1][0] == t[2]: calls[-1][1] = True
+        # `syscall_once` of key k (call o<k>) runs the function of `syscall` key k: its body reports itself as f<k>
+        if t[1] == "enter" and calls and calls[-1][0].replace("o", "f", 1) == t[2] and not calls[-1][1]:
+            calls[-1][1] = True
+            if calls[-1][0][0] == "o":
+                r = int(t[3][1:]); x = int(t[4][1:])
+                if r != 0: bad.append("line %d: syscall_once of %s entered with state %d, expected fresh state" % (i, t[2], r))
+                stack.append((t[2], r, x, "once")); continue
         if t[1] in ("ret", "err") and calls and calls[-1][0] == t[2]:
             c = calls.pop()
             if t[1] == "err" and c[1]: bad.append("line %d: the call of %s ran its system but returned an error" % (i, t[2]))
@@ -212,7 +218,7 @@ def spec_C17(lines, ghost=None):
         elif t[1] == "despawned": alive.discard(t[2])
         elif t[1] == "enter":
             key = t[2]; r = int(t[3][1:]); x = int(t[4][1:])
-            reentrant = any(e[0] == key for e in stack)
+            reentrant = any(e[0] == key and e[3] != "once" for e in stack)   # a syscall_once run does not occupy the cache
             if key[0] == "s":
                 if key not in alive: bad.append("line %d: %s ran although it does not exist" % (i, key))
                 if reentrant: bad.append("line %d: spawned system %s ran while running" % (i, key))
@@ -223,7 +229,10 @@ def spec_C17(lines, ghost=None):
             stack.append((key, r, x, reentrant))
         elif t[1] == "ret":
             key = t[2]; v = int(t[3])
-            if stack and stack[-1][0] == key:
+            if key[0] == "o" and stack and stack[-1][0] == "f" + key[1:] and stack[-1][3] == "once":
+                k, r, x, re_ = stack.pop()
+                if v != x * 100 + r: bad.append("line %d: %s returned %d for input %d state %d" % (i, key, v, x, r))
+            elif stack and stack[-1][0] == key:
                 k, r, x, re_ = stack.pop()
                 if v != x * 100 + r: bad.append("line %d: %s returned %d for input %d state %d" % (i, key, v, x, r))
                 if not re_: stored[key] = r + 1
